@@ -162,6 +162,10 @@ def foreign(chk):
 def run(chk, replay=None):
     chk.proof_leg(MODEL_TARGETS, "Properties/C03.v", PROOF_FILES, "Properties.C03")
     kernel_tie_leg(chk, "gds_read")       # GdsReader::read_record_header / read_record_content / read_record generated from gds21/src/read.rs = read_header / read_content / read_record of the reader model (Properties/KernelsGdsCodec.v)
+    kernel_tie_leg(chk, "gds_parse")      # GdsParser::parse_property / parse_strans generated from gds21/src/read.rs = the parser model (Properties/KernelsGdsCodec.v)
+    kernel_tie_leg(chk, "gds_parse_e1")   # GdsParser::parse_boundary / parse_path / parse_node / parse_box = parse_elem of Gds/GdsRead.v, fuel for fuel
+    kernel_tie_leg(chk, "gds_parse_e2")   # GdsParser::parse_struct_ref / parse_array_ref / parse_text_elem = parse_elem
+    kernel_tie_leg(chk, "gds_parse_lib")  # GdsParser::parse_struct / parse_lib (+ the generated read_record) = parse_struct / parse_lib / read_lib_fuel
     chk.assumptions += [
         "GdsSpec.v is a faithful transcription of the GDSII stream format manual; the reference encoder pads odd-length strings with exactly one NUL and never pads even-length strings (DESIGN.md section 4)",
         "the reference encoding of a double is gds_spec_encode (C15)",
